@@ -313,7 +313,7 @@ fn check(c: &Case, st: &mut Stats) -> CheckResult {
 fn run(cfg: &Cfg) -> Report {
     let mut rep = Report::new(
         cfg,
-        "proptest histories of 3-21 successful inputs (typed definitions, redefinitions/shadowing of variables and functions, generic functions, function values through map, units, dimensions, structs, imports, expressions, prints, ans/_) with a random partition into chunks, a random clone point with an alternative continuation, and 0-2 failing lines for the save filter. Oracle: (1) line-by-line vs (2) chunked and all-joined: same concatenated print output, same last result, same definition digest (function signatures, units, dimensions, raw values of all variables); (3) CommandRunner + `save`: the file holds exactly the trimmed successful inputs in order and replaying it in a fresh session reproduces prints and digest; (4) a cloned session continued differently (interleaved with the original) equals a never-cloned session with the same inputs, and so does the original. non-trivial = contains a redefinition or ans/_, is split into >= 2 chunks and defines >= 3 names; distinct = rendered history",
+        "proptest histories of 3-21 successful inputs (typed definitions, redefinitions/shadowing of variables and functions, generic functions, function values through map, units, units that are exact products of base units and expressions of those products, dimensions, structs, imports, expressions, expressions whose simplification changes the unit, prints, six kinds of uses of ans/_ that expose the unit held) with a random partition into chunks, a random clone point with an alternative continuation, and 0-2 failing lines for the save filter. Oracle: (1) line-by-line vs (2) chunked and all-joined: same concatenated print output, same last result, same definition digest (function signatures, units, dimensions, raw values of all variables); (3) CommandRunner + `save`: the file holds exactly the trimmed successful inputs in order and replaying it in a fresh session reproduces prints and digest; (4) a cloned session continued differently (a random continuation, or the original's continuation without its unit definitions; interleaved with the original) shows the same results and prints input by input and ends with the same definition digest as a never-cloned session with the same inputs, and so does the original. non-trivial = contains a redefinition or ans/_, is split into >= 2 chunks and defines >= 3 names; distinct = rendered history",
     );
     let cases = cfg.tier.pick(400u32, 5000u32);
     rep.absorb(run_proptest(
